@@ -545,3 +545,150 @@ func verif_C03_step() {
 		}
 	}
 }
+
+// verif_C03_isolation: "envelopes never leak across transactions", with the
+// real code as its own oracle. A transaction T2 (2 arbitrary body octets, seven
+// shapes incl. DATA, BDAT in one or two chunks, commands out of order, and
+// messages over the size limit) is
+// run (A) after a first transaction T1 that has ended in one of eleven ways on
+// the same connection and (B) on a fresh connection. Everything observable
+// from the first octet of T2 on - the number and class of the replies, the
+// backend callbacks with their arguments, the message octets the backend reads -
+// must be identical.
+func verif_C03_isolation() {
+	verifPreemptBound(0)
+	verifSchedForkBound(0)
+	lmtp := nondetBool()
+	lmtpSess := lmtp && nondetBool()
+	t1 := verifChoice(11)
+	t2 := verifChoice(7)
+	x, y := nondetByte(), nondetByte()
+	assume(x < 0x80 && y < 0x80)
+	rejectT1 := nondetBool()
+	rejectT2 := nondetBool()
+	first := []string{
+		"MAIL FROM:<a@v>\r\nRCPT TO:<b@v>\r\nDATA\r\nhi\r\n.\r\n",
+		"MAIL FROM:<a@v>\r\nRCPT TO:<b@v>\r\nDATA\r\n12345678\r\n.\r\n",
+		"MAIL FROM:<a@v>\r\nRCPT TO:<b@v>\r\nRCPT TO:<c@v>\r\nBDAT 2 LAST\r\nhi",
+		"MAIL FROM:<a@v>\r\nRCPT TO:<b@v>\r\nBDAT 9 LAST\r\n123456789",
+		"MAIL FROM:<a@v>\r\nRCPT TO:<b@v>\r\nBDAT 2\r\nhiRSET\r\n",
+		"MAIL FROM:<a@v>\r\nRCPT TO:<b@v>\r\nBDAT 2\r\nhiBDAT 9 LAST\r\n123456789",
+		"MAIL FROM:<a@v> BODY=BINARYMIME\r\nRCPT TO:<b@v>\r\nRSET\r\n",
+		"MAIL FROM:<a@v>\r\nRCPT TO:<b@v>\r\nEHLO again\r\n",
+		"MAIL FROM:<a@v> SIZE=3\r\nRCPT TO:<b@v>\r\nDATA\r\nhi\r\n.\r\n",
+		"MAIL FROM:<a@v>\r\nRCPT TO:<b@v>\r\nMAIL FROM:<rej@v>\r\nRSET\r\n",
+		"MAIL FROM:<a@v>\r\nRCPT TO:<b@v>\r\nRCPT TO:<rej@v>\r\nDATA\r\nhi\r\n.\r\n",
+	}
+	if lmtp {
+		first[7] = "MAIL FROM:<a@v>\r\nRCPT TO:<b@v>\r\nLHLO again\r\n"
+	}
+	xs, ys := string([]byte{x}), string([]byte{y})
+	second := []string{
+		"MAIL FROM:<s@v>\r\nRCPT TO:<r@v>\r\nDATA\r\n" + xs + ys + "\r\n.\r\n",
+		"MAIL FROM:<s@v>\r\nRCPT TO:<r@v>\r\nBDAT 2 LAST\r\n" + xs + ys,
+		"MAIL FROM:<s@v>\r\nRCPT TO:<r@v>\r\nBDAT 1\r\n" + xs + "BDAT 1 LAST\r\n" + ys,
+		"RCPT TO:<r@v>\r\nDATA\r\nBDAT 1 LAST\r\n" + xs,
+		"MAIL FROM:<s@v>\r\nDATA\r\nRCPT TO:<r@v>\r\nDATA\r\n" + xs + ys + "\r\n.\r\n",
+		"MAIL FROM:<s@v>\r\nRCPT TO:<r@v>\r\nDATA\r\n" + xs + ys + "345678\r\n.\r\n",
+		"MAIL FROM:<s@v>\r\nRCPT TO:<r@v>\r\nBDAT 3\r\n" + xs + ys + "3BDAT 3 LAST\r\n456",
+	}
+	type obs struct {
+		out    []byte
+		trace  []vevent
+		bodies [][]byte
+		errs   []error
+	}
+	run := func(withFirst bool) obs {
+		var o obs
+		be := &vbackend{lmtpSession: lmtpSess}
+		inT2 := false
+		deliver := func(r io.Reader) error {
+			mine := inT2
+			b, e := verifReadAll(r, 4)
+			if mine {
+				o.bodies = append(o.bodies, b)
+				o.errs = append(o.errs, e)
+			}
+			if e != io.EOF {
+				return e
+			}
+			if mine && rejectT2 || !mine && rejectT1 {
+				return verifErrBackend()
+			}
+			return nil
+		}
+		be.dataFn = func(_ *vsession, r io.Reader) error { return deliver(r) }
+		be.lmtpFn = func(_ *vsession, r io.Reader, st StatusCollector) error { return deliver(r) }
+		refuse := func(a string) error {
+			if a == "rej@v" {
+				return verifErrBackend()
+			}
+			return nil
+		}
+		be.mailErr, be.rcptErr = refuse, refuse
+		s, _ := verifServer(be)
+		s.LMTP = lmtp
+		s.MaxMessageBytes = verifC03Limit
+		s.EnableBINARYMIME = true
+		vc := &vconn{final: io.EOF}
+		stage, mark, tmark := 0, 0, 0
+		vc.script = func(c *vconn) bool {
+			switch stage {
+			case 0:
+				if lmtp {
+					c.in = append(c.in, "LHLO c\r\n"...)
+				} else {
+					c.in = append(c.in, "EHLO c\r\n"...)
+				}
+				if withFirst {
+					c.in = append(c.in, first[t1]...)
+				}
+				stage = 1
+				return true
+			case 1:
+				mark, tmark = len(c.out), len(be.trace)
+				inT2 = true
+				c.in = append(c.in, second[t2]...)
+				c.in = append(c.in, "NOOP\r\n"...)
+				stage = 2
+				return true
+			}
+			return false
+		}
+		c := newConn(vc, s)
+		s.handleConn(c)
+		verifSettle()
+		o.out = vc.out[mark:]
+		o.trace = be.trace[tmark:]
+		return o
+	}
+	a := run(true)
+	b := run(false)
+	verifObserve("c03iso", lmtp, lmtpSess, t1, t2, x, y, rejectT1, rejectT2, len(a.out), len(b.out), len(a.trace), len(b.trace))
+	// replies: same number, same class each (the statement fixes the class of a
+	// reply, not its text: the wording of a refusal may depend on what was
+	// refused before)
+	ra, wfa := verifParseReplies(a.out)
+	rb, wfb := verifParseReplies(b.out)
+	verifAssert(wfa && wfb && len(ra) == len(rb), "C03.isolation-same-reply-count")
+	if wfa && wfb && len(ra) == len(rb) {
+		for i := range ra {
+			verifAssert(ra[i].code/100 == rb[i].code/100, "C03.isolation-same-reply-class")
+		}
+	}
+	verifAssert(len(a.trace) == len(b.trace), "C03.isolation-same-callback-count")
+	if len(a.trace) == len(b.trace) {
+		for i := range a.trace {
+			p, q := a.trace[i], b.trace[i]
+			verifAssert(p.kind == q.kind && p.arg == q.arg && (p.err == nil) == (q.err == nil), "C03.isolation-same-callbacks")
+		}
+	}
+	verifAssert(len(a.bodies) == len(b.bodies), "C03.isolation-same-deliveries")
+	if len(a.bodies) == len(b.bodies) {
+		for i := range a.bodies {
+			verifAssert(string(a.bodies[i]) == string(b.bodies[i]) && (a.errs[i] == io.EOF) == (b.errs[i] == io.EOF), "C03.isolation-same-message-octets")
+		}
+	}
+	verifAssert(len(b.out) > 0, "C03.isolation-replies-present")
+	verifReach("C03.isolation-end")
+}
